@@ -35,7 +35,7 @@ ASSUMPTIONS = [
     'reversed TIF files whose first next-word is 0x100 or 0x10000 are excluded (two byte orders indistinguishable)',
     'no stored-byte fault: the statement is about files written conformantly',
 ]
-PROBES = ['writer_starts_past_zero', 'checksum_boundary_value', 'two_readers_interleaved', 'record_number_wraps', 'read_ends_at_pr_boundary', 'read_ends_at_record_boundary', 'skip_across_ge2_pr', 'seek_back_after_eof', 'seek_partial_seek_same',
+PROBES = ['file_object_mode_attribute', 'writer_starts_past_zero', 'checksum_boundary_value', 'two_readers_interleaved', 'record_number_wraps', 'read_ends_at_pr_boundary', 'read_ends_at_record_boundary', 'skip_across_ge2_pr', 'seek_back_after_eof', 'seek_partial_seek_same',
           'payload_lt_one_pr', 'pr_with_1_byte', 'tif_reversed', 'tif_normal', 'none_at_record_end', 'run_on_into_next', 'eof_reached',
           'foreign_chunking', 'written_reread', 'strip_tif', 'seek_cur', 'tell_checked', 'all_trailers']
 
@@ -91,6 +91,8 @@ def generate(seed, tier):
     sc = {'world': 'lis_phys', 'model': model, 'ops': gen_ops(rng, model), 'reread_written': rng.chance(0.5)}
     if sc_prefix is not None:
         sc['writer_prefix'] = sc_prefix
+    if rng.chance(0.15):
+        sc['mode_attr'] = rng.pick(['rb', 'r', 1, 'rb+'])      # what the file object's mode attribute says (zip members: 'r', gzip: an integer)
     if rng.chance(0.2):
         # a second reader on another file is alive at the same time: [k, -1] = before operation k it reads its next whole record
         other = L.gen_model(seeds.Rng(rng.getrandbits(32)), max_records=6)
@@ -258,7 +260,9 @@ def execute(scenario):
         drive_strip(res, model)
     # (2) reader history on the producer's bytes
     clock = EventClock()
-    f = SimFile(by, clock, name='sim.lis')
+    f = SimFile(by, clock, name='sim.lis', mode_attr=scenario.get('mode_attr'))
+    if scenario.get('mode_attr') is not None:
+        res.probe('file_object_mode_attribute')
     op_shapes = []
     try:
         rd = File.FileRead(f, 'sim.lis', False)
